@@ -89,6 +89,19 @@ CLAIMS["C14"] = (
     "DESIGN.md §3 C14",
 )
 
+CLAIMS["C07"] = (
+    "NONZERO fixpoint for integer divisors, shift-count typing, kind-guard analysis of kernels against their cells, return summaries for int-preservation, operator-signature check (Go operator × operand provenance) of all numeric kernels",
+    "Decides the no-crash clause (no integer division/modulus by an unproven divisor, no signed non-constant shift) and the dispatch wiring of every arithmetic/bit/min/max/relational operator: one matrix per operator, kernels accept the kinds of their cells, documented int-preserving cells build no float and mixed cells return floats, and each numeric kernel applies the Go operator the DSL operator denotes with the left operand on the left. Exactness, overflow detection and sign conventions are NOT decided (value-level).",
+    "Trusts go/ssa; a - b written as a + (-b) is accepted (equal except at the int64 minimum). Frozen divisor exceptions with reasons in checker/nonzero.go.",
+    "DESIGN.md §3 C07",
+)
+CLAIMS["C18"] = (
+    "flow analysis over the 12 value kinds + 'not yet inferred' (predicate meanings and accessor requirements derived by abstract evaluation of package mlrval), parameter preconditions to fixpoint checked at callers, table cells and all registered built-ins; NONZERO analysis; loop-progress and make-length rules; read-loop path rule; who-may-exit",
+    "Decides, universally over kind tuples, that no typed access / kind assertion can abort: ~500 Acquire…Value/assertion sites are each proven guarded by a dominating kind test or become a precondition that every caller, every one of ~2 700 disposition cells and every one of ~290 registered built-ins satisfies for all kinds incl. un-inferred values; plus no integer division by an unproven divisor, no signed shift count, no zero-step loop in the built-ins, no make() with a possibly negative length, failed reads end their loop, exits only from the keep-list. Index/slice bounds, nil dereference and recursion depth are NOT decided.",
+    "Trusts go/ssa and the abstract evaluator (values that depend on loops are havocked; a memory location re-loaded at each use is assumed unchanged between test and use). One assertion is frozen as a CST-builder invariant (checker/c18.go).",
+    "DESIGN.md §3 C18",
+)
+
 NOT_APPLICABLE = {
     "C13": "Join pairing, ordering and unpaired accounting are relational identities over run-time key values and bucket contents; no clause is a shape fact visible to static analysis (the shared protocol facts are reported under C04/C10/C17).",
 }
